@@ -86,7 +86,9 @@ def nsOfJson (j : Json) : Except String Namespace := do
          docRefs := ← docRefsOf j "docs"
          routes := ← optStrList j "routes"
          dataTypes := ← optStrList j "types"
-         aliases := ← optStrList j "aliases" }
+         aliases := ← optStrList j "aliases"
+         annotations := ← optStrList j "annotations"
+         annotationTypes := ← optStrList j "annotation_types" }
 
 def graphOfJson (j : Json) : Except String Graph := do
   let g ← jobj j "graph"
@@ -152,9 +154,10 @@ def handle (op : String) (j : Json) : Except String Json := do
         ("types", exceptIds (linearizeDataTypes g n.name n.dataTypes)),
         ("aliases", exceptIds (linearizeAliases g n.name n.aliases)),
         ("hyps_ok", Json.bool (ownListB g n.name n.dataTypes && ownListB g n.name n.aliases
-          && linkClosedB g n.name parentLink n.dataTypes && linkClosedB g n.name (aliasLink g) n.aliases
+          && linkClosedB g n.name parentLink n.dataTypes && aliasClosedB g n.name n.aliases
           && n.dataTypes.eraseDups.length == n.dataTypes.length && n.aliases.eraseDups.length == n.aliases.length)),
-        ("norm_routes", jids nn.routes), ("norm_types", jids nn.dataTypes), ("norm_aliases", jids nn.aliases)]
+        ("norm_routes", jids nn.routes), ("norm_types", jids nn.dataTypes), ("norm_aliases", jids nn.aliases),
+        ("norm_annotations", jids nn.annotations), ("norm_annotation_types", jids nn.annotationTypes)]
     pure (ok [("namespaces", Json.arr per.toArray),
               ("norm_namespaces", jids ((normalize g).namespaces.map (·.name)))])
   | "graph.allfields" =>
